@@ -3,13 +3,13 @@ against the REAL runtime classes (type-stripped codegen-v2.ts) + property oracle
 import vcheck
 
 PID = "C03"
-MODULES = ["BeffVerif.Props.C03", "BeffVerif.Props.C03NoThrow"]
+MODULES = ["BeffVerif.Props.C03", "BeffVerif.Props.C03NoThrow", "BeffVerif.Props.C03Report", "BeffVerif.Props.C03Parse"]
 AUDIT = "BeffVerif/Audit/C03.lean"
 TAGS = ("c03.",)
 HYP = {"NoProtoNamedKeys": "D28", "IntersectionsOfObjects": "D29", "NoSplitIntersection": "D32", "NoAccessorNamedProps": "D33"}
 OPEN = [
     "parse_revalidates / parse_projection / parse_idempotent / keyOrder_only at full strength: false on the current code (D28, D29: negations proved in Props/C03.lean); the _partial versions under noProtoNamedProps ∧ intersectionsOfObjects are not yet proved — covered by the correspondence + JS property oracle",
-    "no_foreign_throw is proved for validate (validate_no_throw, Props/C03NoThrow.lean); for safeParse / parse the only model-level exceptions are the documented parse error and the JSON.stringify paths of deduplicateErrors (guarded since fix D35) — not proved as a theorem",
+    "no_foreign_throw is a theorem for all three entry points in a closed environment (validate_no_throw, report_no_throw, parseAV_no_throw after a successful validation, hence safeParse_no_throw and parse_only_documented_failure: Props/C03NoThrow, C03Report, C03Parse); outside the model: exceptions of the JavaScript engine the model has no counterpart for (getters, proxies, revoked objects, `toJSON` of non-Date objects inside deduplicateErrors — guarded since fix D35, values whose own `constructor` / `toString` is not a function — covered by the correspondence since round 4)",
     "no_mutation is trivial in the model (immutable values); mutation is observed only by the harness snapshot",
 ]
 RULE = ("random (environment, Runtype tree, value, strict flag): trees are built from the REAL classes (compiler-like shapes: objects with "
